@@ -6,7 +6,8 @@ from .. import core, spaces
 
 PROP = "C16"
 ALPHA = "STYKEG"
-LONG = ["KSEKTGKEYEKE", "GSKKEYEDTGRS", "KKSKKYEEEETE"]
+LONG = ["KSEKTGKEYEKE", "KKSKKYEEEETE"]
+LONG4 = ["GSKKEYEDTGRS"]     # four sites: 65 states (thorough only)
 
 
 def SP(s):
@@ -47,11 +48,53 @@ def apply(o, op):
         o.set_phosphosites(list(a) if isinstance(a, list) else a)
 
 
-def build(seq, hist):
+def probe(o):
+    """All read-only phospho queries, results discarded: they are part of the history, not judged here."""
+    try:
+        o.get_phosphosites()
+        o.get_phosphosequence()
+        o.get_kappa_after_phosphorylation()
+        o.get_full_phosphostatus_kappa_distribution()
+        o.get_all_phosphorylatable_sites()
+    except Exception:  # noqa
+        pass
+
+
+def build(seq, hist, probes=False):
+    """probes: True = query after every call; 'before-clear' = query once, just before each clear."""
     o = SP(seq)
+    if probes is True:
+        probe(o)
     for op in hist:
+        if probes == "before-clear" and op[0] == "clear":
+            probe(o)
         apply(o, op)
+        if probes is True:
+            probe(o)
     return o
+
+
+def two_epochs(seq, states, out):
+    """Every ordered pair of reachable site lists (s1, s2): set s1 site by site, query, clear, set s2, judge."""
+    n = 0
+    for s1 in states:
+        if not s1:
+            continue
+        if len(states) <= 20:
+            seconds = [s2 for s2 in states if s2]
+        else:   # many states: only the second epochs most likely to collide - the same sites in every other order
+            seconds = [s2 for s2 in states if s2 and set(s2) == set(s1)]
+        for s2 in seconds:
+            hist = [("set", x) for x in s1] + [("clear", None)] + [("set", x) for x in s2]
+            case = {"kind": "hist", "seq": seq, "history": hist, "probes": "before-clear"}
+            n += 1
+            try:
+                o = build(seq, hist, probes="before-clear")
+            except Exception as e:  # noqa
+                out.append({"key": "set-raises", "what": "%s: two-epoch history %r raised %r" % (seq, hist, e), "case": case})
+                continue
+            state_invariants(seq, list(s2), o, case, out)
+    return n
 
 
 _kap = {}
@@ -150,7 +193,7 @@ def explore(seq, full):
             exp = [] if op[0] == "clear" else model_set(seq, list(st), op[1])
             try:
                 bystander = SP(seq)
-                o = build(seq, hist)
+                o = build(seq, hist, probes=(ntrans % 5 == 0 and len(seq) <= 4))
                 apply(o, op)
                 got = o.get_phosphosites()
                 calls += len(hist) + 2
@@ -173,6 +216,7 @@ def explore(seq, full):
                 seen[t] = hist + [op]
                 frontier.append(t)
                 calls += state_invariants(seq, exp, o, case, out)
+    ntrans += two_epochs(seq, sorted(seen), out)
     return out, len(seen), ntrans, calls
 
 
@@ -185,7 +229,11 @@ def replay(case):
     try:
         o = SP(seq)
         for op in hist:
+            if case.get("probes") == "before-clear" and op[0] == "clear":
+                probe(o)
             apply(o, op)
+            if case.get("probes") is True:
+                probe(o)
             sites = [] if op[0] == "clear" else model_set(seq, sites, op[1])
     except Exception as e:  # noqa
         return [{"key": "set-raises", "what": "%s: history %r raised %r" % (seq, hist, e), "case": case}]
@@ -221,7 +269,7 @@ def run(tier, seed, t0):
         for L in (1, 2, 3, 4):
             items += [(w, True) for w in spaces.shard_words(ALPHA, L, "")]
         items += [(w, False) for w in spaces.shard_words("SYK", 5, "")]
-        items += [(w, False) for w in LONG]
+        items += [(w, False) for w in LONG + LONG4]
     items.sort(key=lambda it: -(sum(it[0].count(c) for c in "STY") * 10 + len(it[0])))
     nsh = 16 * 8
     acc = core.pmap(shard, [items[i::nsh] for i in range(nsh)])
@@ -230,7 +278,9 @@ def run(tier, seed, t0):
         rule="for every word (%s) and two 12-mers: BFS over histories of clear_phosphosites() / set_phosphosites(x) with x in "
              "{every int -(N+2)..N+2, every ordered pair of them as list and as tuple, two lists with duplicates} (12-mers and 5-mers: "
              "single ints + two lists); canonical state = ordered phosphosite list; every transition is executed on a fresh object "
-             "with the history replayed and compared with a plain list model; search to the fixpoint (all orderings of all subsets of "
+             "with the history replayed (every fifth one, for words of up to 4 residues, with all read-only phospho queries interleaved after each call) and compared with a "
+             "plain list model; in addition, for every ordered pair (s1,s2) of reachable site lists (with more than 20 reachable lists: every pair listing the same sites) the two-epoch history set s1 / queries / "
+             "clear / set s2 is run on one object; search to the fixpoint (all orderings of all subsets of "
              "the S/T/Y sites). In every state: get_phosphosites == model, sequence unchanged, get_phosphosequence = E at exactly "
              "those positions, get_kappa_after_phosphorylation = kappa of a fresh object on that sequence, distribution has 2^k "
              "entries in binary counting order whose six numbers equal those of the substituted sequence, "
